@@ -48,7 +48,12 @@ class TimersCtx(BaseCtx):
         if cfg.get("prelude_opensent_drop") is not None and not self.prelude:
             # an earlier connection on which the peer never sent its OPEN and which it dropped after d seconds
             self.prelude = [["fire", 0], ["conn_ok", 0], ["advance", cfg["prelude_opensent_drop"]], ["pclose", 0, bool(cfg.get("prelude_clean", True))]]
-        self.in_prelude = bool(self.prelude)
+        # an earlier connection that the agent's own hold timer ended: in OpenSent (the peer never sent its OPEN,
+        # 240 s) or later, with the hold time negotiated by peer_open_x (the peer goes silent after its first
+        # KEEPALIVE). Its ops are chosen from the state; it ends with the completion of the agent's close.
+        self.prelude_dyn = cfg.get("prelude_hold_expiry") if not self.prelude else None
+        self.dyn_stage = 0
+        self.in_prelude = bool(self.prelude) or bool(self.prelude_dyn)
         self.prelude_left = len(self.prelude)      # counted in step(), so that replay needs no choose()
         self.prelude_sent = 0
 
@@ -68,6 +73,19 @@ class TimersCtx(BaseCtx):
         if self.prelude_sent < len(self.prelude):
             self.prelude_sent += 1
             return self.prelude[self.prelude_sent - 1]
+        if self.prelude_dyn and self.dyn_stage < 9:
+            live = w.live_conns()
+            if live and live[0].closing():
+                self.dyn_stage = 9
+                return ["cdone", 0]
+            if live and live[0].state == "connecting":
+                return ["conn_ok", 0]
+            if live and self.prelude_dyn == "established" and self.dyn_stage < 2:
+                self.dyn_stage += 1
+                return ["send", 0, self.cfg["peer_open_x"] if self.dyn_stage == 1 else rp.encode_keepalive().hex(), []]
+            if not w.reactor.due():
+                return None
+            return ["fire", 0]
         if self.phase == "boot":
             if not w.reactor.due():
                 return None
@@ -156,9 +174,17 @@ class TimersCtx(BaseCtx):
             # only the first octets of a message arrive now (TCP segmentation): not a message yet
             msg = rp.encode_keepalive() if rng.chance(0.6) else base.gen_update(rng, self.cfg, False)
             cut = rng.randrange(1, len(msg))
+            head = b""
+            if rng.chance(0.3):
+                # a complete small message - an arrival - and, in the same segment, most of a maximum-size
+                # UPDATE whose last octets come later (the peer stalls in mid-write)
+                head = rp.encode_keepalive() if rng.chance(0.3) else base.gen_update(rng, self.cfg, False)
+                msg = base.max_size_update()
+                cut = rng.pick([4095, 4090, 4077, len(msg) - len(head), rng.randrange(19, len(msg))])
+                self.stats["gen:message_plus_most_of_a_big_one"] += 1
             self.gen_partial_rest = msg[cut:]
             self.stats["gen:partial_frame_arrival"] += 1
-            return ["send", self.k(), msg[:cut].hex(), []]
+            return ["send", self.k(), (head + msg[:cut]).hex(), []]
         if self.cfg.get("clock_steps") and getattr(self, "gen_steps", 0) < self.cfg["clock_steps"] and rng.chance(0.3):
             # the wall clock is stepped (the reactor's time base is monotonic): the timers' contract is unchanged
             self.gen_steps = getattr(self, "gen_steps", 0) + 1
@@ -208,7 +234,7 @@ class TimersCtx(BaseCtx):
             # the earlier session is not judged; swallow its outputs
             self.observe(pos)
             self.prelude_left -= 1
-            if self.prelude_left <= 0:
+            if (self.prelude_left <= 0 and not self.prelude_dyn) or (self.prelude_dyn and op[0] == "cdone" and ran):
                 self.in_prelude = False
                 self.stats["two_session_runs"] += 1
             return
@@ -416,8 +442,8 @@ class TimersProfile(BaseProfile):
     rule = ("one run = (configured hold, proposed hold) from {0,3,4,9,30,90,180,65535}^2 + a peer arrival schedule of "
             "KEEPALIVE/UPDATE gaps from {H-e,H,H+e,H/3,0,H/2,3H,...} in OpenConfirm and Established (or total silence in "
             "OpenSent; 20 % of the runs mix in well-framed UPDATEs with malformed bodies - still UPDATEs for the hold timer -, 10 % let the application raise when told that the session is established, 15 % deliver some messages in two pieces - the first piece is not an arrival -, 15 % step the wall clock while the reactor's time base stays), all timers fired at their virtual instants with explicit tie order; non-trivial = reached "
-            "Established or observed an expiry; distinct = distinct (phase, op, outputs, arrivals) sequence")
-    probes = ["gen:partial_frame_arrival", "op:clockstep", "gen:malformed_update_arrival", "established_refused_by_application(tolerated)", "gen:late_close_of_earlier_connection", "rest_update_sent", "second_open_in_openconfirm", "two_session_runs", "gen:tie_timer_vs_arrival", "same_instant_timers", "expiry_negotiated_hold", "expiry_large_hold",
+            "Established or observed an expiry; distinct = distinct (phase, op, outputs, arrivals) sequence; 6 % of the runs begin with a connection that the agent's own hold timer ended; partial-frame runs also deliver a complete message plus most of a 4096-octet UPDATE in one segment")
+    probes = ["gen:message_plus_most_of_a_big_one", "two_session_runs", "gen:partial_frame_arrival", "op:clockstep", "gen:malformed_update_arrival", "established_refused_by_application(tolerated)", "gen:late_close_of_earlier_connection", "rest_update_sent", "second_open_in_openconfirm", "two_session_runs", "gen:tie_timer_vs_arrival", "same_instant_timers", "expiry_negotiated_hold", "expiry_large_hold",
               "periodic_keepalive", "arrival_restarts_hold", "closed_after_expiry"]
 
     def gen_config(self, rng, idx, tier):
@@ -439,6 +465,12 @@ class TimersProfile(BaseProfile):
             cfg["prelude_opensent_drop"] = rng.pick([0.5, 20.0, 130.0, 200.0])
             cfg["prelude_clean"] = rng.chance(0.5)
             cfg["idle_hold_time"] = rng.pick([1, 30])
+            if rng.chance(0.6):
+                cfg["variant"] = "silence"
+        if not cfg.get("peer_open0") and cfg.get("prelude_opensent_drop") is None and rng.chance(0.06):
+            cfg["prelude_hold_expiry"] = rng.pick(["opensent", "established"])
+            cfg["peer_open_x"] = base.gen_open(rng, cfg, "valid", hold=rng.pick([3, 9, 30])).hex()
+            cfg["idle_hold_time"] = rng.pick([1, 30, 100])
             if rng.chance(0.6):
                 cfg["variant"] = "silence"
         cfg["n_arrivals"] = rng.pick([0, 1, 2, 4, 8, 16])
